@@ -14,7 +14,9 @@
 (* suffixes/prefixes of each other, names ending in a digit that collide   *)
 (* with replica suffixes, dotted/dashed names, the same name in two stages)*)
 (* stage, replicate request (none / literal 1,2,3,11 / through a variable   *)
-(* defined at global, stage or component scope), aggregate flag, and an    *)
+(* defined at global, stage or component scope -- also by OTHER stages and *)
+(* by SIBLING components with other values, which must not leak), aggregate*)
+(* flag (literal or through a variable with the same scoping), and an      *)
 (* ordered list of references to components built earlier (so the workflow *)
 (* is acyclic by construction; the document order fed to the code is the   *)
 (* build order or its reverse -- variable `order`).                        *)
@@ -53,27 +55,41 @@ CONSTANTS Names,        \* set of strings: component names
           DocOrders,    \* subset of {"fwd","rev"}: order of the components in the document given to the code
           MaxComps,     \* number of components of a workflow: 1..MaxComps
           MaxRefs,      \* references per component
+          PrivChoices,  \* subset of 0..3: value v > 0 = the component defines rg, rs, rc = v (and ag = "v is odd") privately
+          AggVarChoices,\* subset of BOOLEAN: TRUE = the aggregate flag is given through the variable `ag`
+          StageVals0,   \* subset of 0..3: value v > 0 = the stage-0 scope defines rs = v (and ag = "v is odd")
+          StageVals1,   \*   "  for the stage-1 scope
           FixedNames,   \* TRUE: the i-th component built takes the i-th of the well-separated names p, q, r, s
                         \*       (shape slices: no permutations of interchangeable names)
           Emit          \* TRUE: print every expanded state as JSON for the conformance driver
 
-VARIABLES comps,    \* Seq of [name, stage, rep, agg, refs]; refs: Seq of [p, sp, path, m, st]
+VARIABLES comps,    \* Seq of [name, stage, rep, agg, refs, priv, aggv]; refs: Seq of [p, sp, path, m, st]
+          svals,    \* <<v0, v1>>: what the stage-0 / stage-1 scopes define (chosen in Init, 0 = nothing)
           phase,    \* "build" | "expanded"
           order,    \* document order of the case ("fwd" until Expand chooses)
           out       \* Expansion(comps) once expanded
-rvars == <<comps, phase, order, out>>
+rvars == <<comps, svals, phase, order, out>>
 
 ---------------------------------------------------------------------------
-(* Variables through which a replica count may be given.  The package defines, for the default platform, *)
-(*   global scope:  rg = 2, rs = 3, rc = 3        stage-1 scope: rs = 2        component scope ("vc"): rc = 2 *)
-(* and the component scope overrides the stage scope, which overrides the global scope.                       *)
+(* Variables through which a replica count (rg, rs, rc) or the aggregate flag (ag) may be given, and the documented     *)
+(* scoping: a component sees its OWN variables, then those of its OWN stage, then the global ones.  Nothing a component   *)
+(* or a stage defines is visible to a sibling component, to another stage or to the global scope.                        *)
+(*   global scope:    rg = 2, rs = 3, rc = 3, ag = false                                                                 *)
+(*   stage-s scope:   rs = v and ag = odd(v) when svals[s] = v > 0 (own stage AND other stage, different values)          *)
+(*   component scope: rg = rs = rc = v and ag = odd(v) when the component's priv = v > 0; a component with rep = "vc"     *)
+(*                    defines rc = 2 itself.  Siblings (same or other stage) may define other values: they must not leak. *)
 GlobalScope == [v \in {"rg", "rs", "rc"} |-> IF v = "rg" THEN 2 ELSE 3]
-StageScope(s) == IF s = 1 THEN [v \in {"rs"} |-> 2] ELSE [v \in {} |-> 0]
-CompScope(rep) == IF rep = "vc" THEN [v \in {"rc"} |-> 2] ELSE [v \in {} |-> 0]
+StageVal(s) == svals[s + 1]
+StageScope(s) == IF StageVal(s) > 0 THEN [v \in {"rs"} |-> StageVal(s)] ELSE [v \in {} |-> 0]
+CompScope(rep, pv) == [v \in (IF pv > 0 THEN {"rg", "rs", "rc"} ELSE {}) \cup (IF rep = "vc" THEN {"rc"} ELSE {}) |->
+                         IF v = "rc" /\ rep = "vc" THEN 2 ELSE pv]
 VarOf(rep) == CASE rep = "vg" -> "rg" [] rep = "vs" -> "rs" [] rep = "vc" -> "rc"
-Lookup(v, s, rep) == IF v \in DOMAIN CompScope(rep) THEN CompScope(rep)[v]
-                     ELSE IF v \in DOMAIN StageScope(s) THEN StageScope(s)[v]
-                     ELSE GlobalScope[v]
+Lookup(v, s, rep, pv) == IF v \in DOMAIN CompScope(rep, pv) THEN CompScope(rep, pv)[v]
+                         ELSE IF v \in DOMAIN StageScope(s) THEN StageScope(s)[v]
+                         ELSE GlobalScope[v]
+Odd(v) == v % 2 = 1
+(* the value of the variable `ag` a component of stage s with private value pv sees *)
+AgLookup(s, pv) == IF pv > 0 THEN Odd(pv) ELSE IF StageVal(s) > 0 THEN Odd(StageVal(s)) ELSE FALSE
 
 (* replica count a component asks for itself; 0 = none *)
 OwnCount(c) == CASE c.rep = "none" -> 0
@@ -81,11 +97,12 @@ OwnCount(c) == CASE c.rep = "none" -> 0
                  [] c.rep = "n2" -> 2
                  [] c.rep = "n3" -> 3
                  [] c.rep = "n11" -> 11      \* two-digit suffixes: copies 10 and 11 sort before 2 as strings
-                 [] OTHER -> Lookup(VarOf(c.rep), c.stage, c.rep)
+                 [] OTHER -> Lookup(VarOf(c.rep), c.stage, c.rep, c.priv)
 
 ---------------------------------------------------------------------------
 (* Building the workflow *)
 Init == /\ comps = <<>>
+        /\ svals \in {<<v0, v1>> : v0 \in StageVals0, v1 \in StageVals1}
         /\ phase = "build"
         /\ order = "fwd"
         /\ out = [status |-> "none", nodes |-> <<>>]
@@ -93,13 +110,15 @@ Init == /\ comps = <<>>
 Rank(n) == CASE n = "p" -> 1 [] n = "q" -> 2 [] n = "r" -> 3 [] n = "s" -> 4 [] OTHER -> 0
 
 (* an aggregating component never asks for replicas itself (outside the family: the property does not say what it means) *)
-AddComponent(n, s, r, g) ==
+(* `agg` is the EFFECTIVE flag: when it is given through the variable (av) it is what the scoping rules resolve `ag` to *)
+AddComponent(n, s, r, g, pv, av) ==
     /\ phase = "build" /\ Len(comps) < MaxComps
     /\ ~ \E i \in 1..Len(comps) : comps[i].name = n /\ comps[i].stage = s     \* identifiers (stage, name) are unique
     /\ g => r = "none"
+    /\ av => g = AgLookup(s, pv)
     /\ FixedNames => Rank(n) = Len(comps) + 1
-    /\ comps' = Append(comps, [name |-> n, stage |-> s, rep |-> r, agg |-> g, refs |-> <<>>])
-    /\ UNCHANGED <<phase, order, out>>
+    /\ comps' = Append(comps, [name |-> n, stage |-> s, rep |-> r, agg |-> g, refs |-> <<>>, priv |-> pv, aggv |-> av])
+    /\ UNCHANGED <<svals, phase, order, out>>
 
 (* the newest component gets one more reference, to a component built earlier that lives in the same or an earlier stage *)
 AddRef(p, sp, pa, m, st) ==
@@ -110,7 +129,7 @@ AddRef(p, sp, pa, m, st) ==
        /\ comps[p].stage <= comps[c].stage
        /\ sp = "rel" => comps[p].stage = comps[c].stage
        /\ comps' = [comps EXCEPT ![c].refs = Append(@, [p |-> p, sp |-> sp, path |-> pa, m |-> m, st |-> st])]
-    /\ UNCHANGED <<phase, order, out>>
+    /\ UNCHANGED <<svals, phase, order, out>>
 
 (* stage indices are contiguous from 0 *)
 WellFormed(ws) == /\ Len(ws) >= 1
@@ -208,9 +227,10 @@ Expansion(ws) ==
 Expand(o) == /\ phase = "build" /\ WellFormed(comps)
              /\ phase' = "expanded" /\ order' = o
              /\ out' = Expansion(comps)
-             /\ UNCHANGED comps
+             /\ UNCHANGED <<comps, svals>>
 
-Next == \/ \E n \in Names, s \in Stages, r \in RepChoices, g \in AggChoices : AddComponent(n, s, r, g)
+Next == \/ \E n \in Names, s \in Stages, r \in RepChoices, g \in AggChoices, pv \in PrivChoices, av \in AggVarChoices :
+              AddComponent(n, s, r, g, pv, av)
         \/ \E p \in 1..MaxComps, sp \in Spellings, pa \in Paths, m \in Methods, st \in ArgStyles : AddRef(p, sp, pa, m, st)
         \/ \E o \in DocOrders : Expand(o)
 
@@ -311,9 +331,9 @@ CRef(r) == <<r.stage, r.name, r.path, r.m>>
 CArg(a) == <<a.kind, a.stage, a.name, a.path, a.m, a.tail>>
 CNode(nd) == [s |-> nd.stage, n |-> nd.name, b |-> nd.base, i |-> nd.idx, c |-> nd.cnt, g |-> nd.agg,
               r |-> [k \in 1..Len(nd.refs) |-> CRef(nd.refs[k])], a |-> [k \in 1..Len(nd.args) |-> CArg(nd.args[k])]]
-CComp(c) == [n |-> c.name, s |-> c.stage, rep |-> c.rep, g |-> c.agg,
+CComp(c) == [n |-> c.name, s |-> c.stage, rep |-> c.rep, g |-> c.agg, pv |-> c.priv, av |-> c.aggv,
              r |-> [k \in 1..Len(c.refs) |-> <<c.refs[k].p, c.refs[k].sp, c.refs[k].path, c.refs[k].m, c.refs[k].st>>]]
 EmitCase == (Emit /\ Done) =>
-              PrintT(ToJson([comps |-> [c \in 1..Len(comps) |-> CComp(comps[c])], order |-> order, status |-> out.status,
+              PrintT(ToJson([comps |-> [c \in 1..Len(comps) |-> CComp(comps[c])], order |-> order, sv |-> svals, status |-> out.status,
                              nodes |-> [j \in 1..Len(out.nodes) |-> CNode(out.nodes[j])]]))
 =============================================================================
